@@ -1176,7 +1176,7 @@ func (fc *fctx) contractClauses(kind string, loop int) []*Clause {
 	}
 	var out []*Clause
 	for _, cl := range fc.contract.Clauses {
-		if cl.Kind == kind && cl.Loop == loop {
+		if cl.Kind == kind && (cl.Loop == loop || (cl.Loop == anyLoop && loop >= 0)) {
 			out = append(out, cl)
 		}
 	}
